@@ -238,6 +238,7 @@ pub fn gen_session(rng: &mut Rng, big_args: bool) -> Session {
 
 /// Runs the session on the real client; returns (observations, read results actually consumed).
 pub fn run_session(s: &Session) -> (String, Vec<String>, Vec<u8>, String) {
+    let _w = crate::util::watch(&s.server);
     let waker = Waker::noop();
     let mut cx = Context::from_waker(&waker);
     let io = MockIo::new(s.reads.clone(), s.writes.clone(), s.flushes.clone());
@@ -291,6 +292,7 @@ fn show_fl(f: &Fl) -> String {
 
 /// the reference: parse the whole server stream in one piece
 pub fn reference(server: &[u8]) -> String {
+    let _w = crate::util::watch(server);
     let mut out = vec![];
     let mut pos = 0;
     let end;
@@ -400,6 +402,7 @@ fn count_complete(bytes: &[u8]) -> (usize, &'static str) {
 }
 
 pub fn run_framed(stream: &[u8], reads: Vec<Rd>, polls: usize) -> String {
+    let _w = crate::util::watch(stream);
     use tokio_util::codec::Framed;
     let waker = Waker::noop();
     let mut cx = Context::from_waker(&waker);
